@@ -89,6 +89,8 @@
 
 /* ---- independent coders --------------------------------------------------------- */
 
+#define KFF "fault free transmission is not cached and fetched as sent (the base of the differential oracle)"
+
 static unsigned enc_h8(unsigned d)
 {
         unsigned d1 = d & 1, d2 = (d >> 1) & 1, d3 = (d >> 2) & 1, d4 = (d >> 3) & 1;
@@ -1053,7 +1055,7 @@ static void self_check(void)
                 take_snapshot(vbi, &ev, &s);
                 /* every level one page of the transmission is cached, nothing else */
                 for (int k = 0; k < s.nkeys; k++)
-                        if (!in_txset(t, s.key[k].pgno, s.key[k].subno)) die("%s: fault free run cached %03x.%04x", t->name, s.key[k].pgno, s.key[k].subno);
+                        if (!in_txset(t, s.key[k].pgno, s.key[k].subno)) mc_violation(KFF, "%s: fault free run cached %03x.%04x", t->name, s.key[k].pgno, s.key[k].subno);
                 /* final content of each page per the transmitter model */
                 for (int k = 0; k < t->ntx; k++) {
                         uint8_t rows[26][40]; int have_any = 0, lop = 0;
@@ -1067,16 +1069,21 @@ static void self_check(void)
                         }
                         if (!have_any || !lop) continue;
                         static vbi_page pg;
-                        if (!vbi_fetch_vt_page(vbi, &pg, t->txset[k].pgno, t->txset[k].subno, VBI_WST_LEVEL_1, 25, FALSE))
-                                die("%s: fault free run did not cache %03x.%04x", t->name, t->txset[k].pgno, t->txset[k].subno);
-                        for (int r = 1; r < 25; r++) for (int c = 0; c < 40; c++)
-                                if (pg.text[r * pg.columns + c].unicode != l1_char(rows[r][c]))
-                                        die("%s: page %03x.%04x row %d col %d shows U+%04x, model %02x", t->name, t->txset[k].pgno, t->txset[k].subno,
+                        if (!vbi_fetch_vt_page(vbi, &pg, t->txset[k].pgno, t->txset[k].subno, VBI_WST_LEVEL_1, 25, FALSE)) {
+                                mc_violation(KFF, "%s: fault free run did not cache %03x.%04x", t->name, t->txset[k].pgno, t->txset[k].subno);
+                                continue;
+                        }
+                        int bad_cell = 0;
+                        for (int r = 1; r < 25 && !bad_cell; r++) for (int c = 0; c < 40 && !bad_cell; c++)
+                                if (pg.text[r * pg.columns + c].unicode != l1_char(rows[r][c])) {
+                                        mc_violation(KFF, "%s: page %03x.%04x row %d col %d shows U+%04x, model %02x", t->name, t->txset[k].pgno, t->txset[k].subno,
                                             r, c, pg.text[r * pg.columns + c].unicode, rows[r][c]);
+                                        bad_cell = 1;
+                                }
                         for (int c = 8; c < 40; c++) {
                                 int last = -1;
                                 for (int i = 0; i < t->ni; i++) if (!t->in[i].filler && t->in[i].pgno == t->txset[k].pgno && t->in[i].subno == t->txset[k].subno) last = i;
-                                if (pg.text[c].unicode != l1_char(t->in[last].htext[c - 8])) die("%s: header row col %d", t->name, c);
+                                if (pg.text[c].unicode != l1_char(t->in[last].htext[c - 8])) { mc_violation(KFF, "%s: header row col %d", t->name, c); break; }
                         }
                 }
                 vbi_event_handler_unregister(vbi, on_event, &ev);
